@@ -107,6 +107,7 @@ func runC09on(c *Ctx, linux bool) {
 	checkRetryablePredicate(c)
 	checkNoPanic(c, roots)
 	checkDecodeFeedback(c, roots)
+	checkFixedWidthReads(c, roots)
 	checkStateDeref(c)
 	if linux {
 		checkBCE(c, roots)
@@ -783,7 +784,7 @@ func checkBCE(c *Ctx, roots []*ssa.Function) {
 	seen := map[string]bool{}
 	nin := 0
 	for _, h := range hits {
-		fnName, expr := c.locate(h.file, h.line, h.col)
+		fnName, expr, lbr := c.locatePos(h.file, h.line, h.col)
 		if fnName == "" || !inb[fnName] {
 			continue
 		}
@@ -798,6 +799,8 @@ func checkBCE(c *Ctx, roots []*ssa.Function) {
 		seen[k] = true
 		if why, ok := bceTable[k]; ok {
 			R.OK("R09.3", "bce#"+k, token.NoPos, fnName, "unproven by the compiler, reviewed: "+why)
+		} else if ok, why := proveUpperBound(c, c.P.Func(fnName), lbr); ok {
+			R.OK("R09.3", "bce#"+k, token.NoPos, fnName, "unproven by the compiler, upper bound established by the checker: "+why)
 		} else {
 			o := core.Obligation{}
 			_ = o
@@ -817,6 +820,12 @@ func firstLine(s string) string {
 
 // locate maps file:line:col to the enclosing function (FuncName form) and the index/slice expression there.
 func (c *Ctx) locate(file string, line, col int) (string, string) {
+	fn, expr, _ := c.locatePos(file, line, col)
+	return fn, expr
+}
+
+// locatePos is locate that also returns the position of the '[' of the expression (the position go/ssa gives the instruction).
+func (c *Ctx) locatePos(file string, line, col int) (string, string, token.Pos) {
 	for _, pk := range c.P.Pkgs {
 		for _, sf := range pk.Syntax {
 			pos := c.P.Fset.Position(sf.Pos())
@@ -825,6 +834,7 @@ func (c *Ctx) locate(file string, line, col int) (string, string) {
 			}
 			var best ast.Node
 			var expr string
+			var lbr token.Pos
 			ast.Inspect(sf, func(n ast.Node) bool {
 				if n == nil {
 					return false
@@ -839,11 +849,13 @@ func (c *Ctx) locate(file string, line, col int) (string, string) {
 					lp := c.P.Fset.Position(x.Lbrack)
 					if lp.Line == line && (expr == "" || lp.Column == col || p.Column == col) {
 						expr = exprShape(x)
+						lbr = x.Lbrack
 					}
 				case *ast.SliceExpr:
 					lp := c.P.Fset.Position(x.Lbrack)
 					if lp.Line == line && (expr == "" || lp.Column == col || p.Column == col) {
 						expr = exprShape(x)
+						lbr = x.Lbrack
 					}
 				case *ast.FuncDecl, *ast.FuncLit:
 					best = n
@@ -851,17 +863,17 @@ func (c *Ctx) locate(file string, line, col int) (string, string) {
 				return true
 			})
 			if best == nil {
-				return "", expr
+				return "", expr, lbr
 			}
 			// match the SSA function by position
 			for _, f := range c.P.ModFuncs {
 				if f.Syntax() == best {
-					return core.FuncName(f), expr
+					return core.FuncName(f), expr, lbr
 				}
 			}
 		}
 	}
-	return "", ""
+	return "", "", token.NoPos
 }
 
 // innermostLoop returns the blocks of the smallest natural loop containing b (nil when b is in no loop).
@@ -968,4 +980,376 @@ func exprShape(x ast.Expr) string {
 		str = re.ReplaceAllString(str, "${1}$$"+strconv.Itoa(i+1))
 	}
 	return str
+}
+
+// ---- a small upper-bound prover for the sites the compiler leaves unproven ----
+
+// lenBoundedFields: slice fields whose length is int(MaxTTL)+1 by construction (decided by C19 R19.2 / C03 R03.2): an index
+// that a dominating comparison bounds by MaxTTL is in range.
+var lenBoundedFields = map[string]bool{
+	"sack.sackDriver.sendTimes": true,
+}
+
+// domFacts: branch conditions whose outcome is fixed at block b (the branch's taken successor dominates b).
+func domFacts(b *ssa.BasicBlock) (conds []ssa.Value, truth []bool) {
+	for d := b.Idom(); d != nil; d = d.Idom() {
+		iff, ok := d.Instrs[len(d.Instrs)-1].(*ssa.If)
+		if !ok || d.Succs[0] == d.Succs[1] {
+			continue
+		}
+		t := d.Succs[0].Dominates(b) && len(d.Succs[0].Preds) == 1
+		f := d.Succs[1].Dominates(b) && len(d.Succs[1].Preds) == 1
+		if t == f {
+			continue
+		}
+		conds = append(conds, iff.Cond)
+		truth = append(truth, t)
+	}
+	// a loop header's own condition governs its body
+	return
+}
+
+func stripWiden(v ssa.Value) ssa.Value {
+	for {
+		cv, ok := v.(*ssa.Convert)
+		if !ok {
+			return v
+		}
+		tb, _ := core.IntBits(cv.Type())
+		sb, _ := core.IntBits(cv.X.Type())
+		if tb == 0 || sb == 0 || tb < sb {
+			return v
+		}
+		v = cv.X
+	}
+}
+
+func linearOf(v ssa.Value) (ssa.Value, int64) {
+	if bo, ok := v.(*ssa.BinOp); ok && bo.Op == token.ADD {
+		if cst, ok := bo.Y.(*ssa.Const); ok && cst.Value != nil {
+			return bo.X, cst.Int64()
+		}
+	}
+	return v, 0
+}
+
+func sameSlice(a, b ssa.Value) bool {
+	if a == b {
+		return true
+	}
+	la, ok1 := a.(*ssa.UnOp)
+	lb, ok2 := b.(*ssa.UnOp)
+	if ok1 && ok2 {
+		fa, ok3 := la.X.(*ssa.FieldAddr)
+		fb, ok4 := lb.X.(*ssa.FieldAddr)
+		if ok3 && ok4 && fa.X == fb.X && fa.Field == fb.Field {
+			return true
+		}
+		if la.X == lb.X {
+			return true
+		}
+	}
+	return false
+}
+
+// leFact: does (cond == truth) establish  x + c <= len(S)  for the given x and slice S? Returns the largest such c.
+func leLenFact(cond ssa.Value, truth bool, x ssa.Value, S ssa.Value) (int64, bool) {
+	bo, ok := cond.(*ssa.BinOp)
+	if !ok {
+		return 0, false
+	}
+	L, Rr := bo.X, bo.Y
+	op := bo.Op
+	// normalise to L (<=|<) R being true
+	if !truth {
+		switch op {
+		case token.LEQ: // !(L <= R)  =>  R < L
+			L, Rr, op = Rr, L, token.LSS
+		case token.LSS:
+			L, Rr, op = Rr, L, token.LEQ
+		case token.GEQ: // !(L >= R) => L < R
+			op = token.LSS
+		case token.GTR:
+			op = token.LEQ
+		default:
+			return 0, false
+		}
+	} else {
+		switch op {
+		case token.GEQ:
+			L, Rr, op = Rr, L, token.LEQ
+		case token.GTR:
+			L, Rr, op = Rr, L, token.LSS
+		case token.LEQ, token.LSS:
+		default:
+			return 0, false
+		}
+	}
+	call, ok := stripWiden(Rr).(*ssa.Call)
+	if !ok {
+		return 0, false
+	}
+	if bi, ok := call.Common().Value.(*ssa.Builtin); !ok || bi.Name() != "len" || !sameSlice(call.Common().Args[0], S) {
+		return 0, false
+	}
+	lb, lc := linearOf(stripWiden(L))
+	if stripWiden(lb) != stripWiden(x) {
+		return 0, false
+	}
+	if op == token.LSS {
+		lc++
+	}
+	return lc, true
+}
+
+func proveUpperBound(c *Ctx, f *ssa.Function, lbr token.Pos) (bool, string) {
+	if f == nil || lbr == token.NoPos {
+		return false, ""
+	}
+	for _, b := range f.Blocks {
+		for _, in := range b.Instrs {
+			if in.Pos() != lbr {
+				continue
+			}
+			conds, truth := domFacts(b)
+			switch x := in.(type) {
+			case *ssa.IndexAddr:
+				idx := stripWiden(x.Index)
+				// (1) idx = slices.IndexFunc(S, ...) on the same slice, behind "found"
+				if call, ok := idx.(*ssa.Call); ok && strings.HasPrefix(core.CalleeName(call.Common()), "slices.Index") && len(call.Common().Args) > 0 && sameSlice(call.Common().Args[0], x.X) {
+					for i, cd := range conds {
+						if bo, ok := cd.(*ssa.BinOp); ok && stripWiden(bo.X) == ssa.Value(call) {
+							if cst, ok := bo.Y.(*ssa.Const); ok && cst.Value != nil {
+								k := cst.Int64()
+								found := (bo.Op == token.LSS && k == 0 && !truth[i]) || (bo.Op == token.GEQ && k == 0 && truth[i]) || (bo.Op == token.EQL && k == -1 && !truth[i]) || (bo.Op == token.NEQ && k == -1 && truth[i]) || (bo.Op == token.GTR && k == -1 && truth[i])
+								if found {
+									return true, "the index is the result of " + core.CalleeName(call.Common()) + " on the same slice, used behind the 'found' test"
+								}
+							}
+						}
+					}
+				}
+				// (2) a slice field of length MaxTTL+1 indexed by a value a dominating comparison bounds by MaxTTL
+				if ld, ok := x.X.(*ssa.UnOp); ok {
+					if fa, ok := ld.X.(*ssa.FieldAddr); ok {
+						key := strings.TrimPrefix(fieldKeyOf(fa), core.ModulePath+"/")
+						if lenBoundedFields[key] {
+							if ok, why := boundedByMaxTTL(c, in, idx, 0); ok {
+								return true, "len(" + key + ") = MaxTTL+1 by construction and " + why
+							}
+						}
+					}
+				}
+				// (3) i + c < len(S) from a dominating condition
+				ib, ic := linearOf(idx)
+				for i, cd := range conds {
+					if k, ok := leLenFact(cd, truth[i], ib, x.X); ok && ic+1 <= k {
+						return true, "a dominating condition establishes index+1 <= len of the same slice"
+					}
+				}
+			case *ssa.Slice:
+				if x.High == nil {
+					// s[lo:]: lo <= len(s)
+					if x.Low == nil {
+						return true, "full slice"
+					}
+					lb, lc := linearOf(stripWiden(x.Low))
+					for i, cd := range conds {
+						if k, ok := leLenFact(cd, truth[i], lb, x.X); ok && lc <= k {
+							return true, "a dominating condition establishes low <= len of the same slice"
+						}
+					}
+					return false, ""
+				}
+				hb, hc := linearOf(stripWiden(x.High))
+				for i, cd := range conds {
+					if k, ok := leLenFact(cd, truth[i], hb, x.X); ok && hc <= k {
+						return true, "a dominating condition establishes high <= len of the same slice (lower bounds are not examined)"
+					}
+				}
+			}
+		}
+	}
+	return false, ""
+}
+
+// boundedByMaxTTL: v (or, when v is a parameter, the argument at every call site in the module) is compared against a MaxTTL
+// field on a dominating branch that excludes v > MaxTTL.
+func boundedByMaxTTL(c *Ctx, at ssa.Instruction, v ssa.Value, depth int) (bool, string) {
+	if depth > 3 {
+		return false, ""
+	}
+	v = stripWiden(v)
+	isMaxTTL := func(y ssa.Value) bool {
+		y = stripWiden(y)
+		if ld, ok := y.(*ssa.UnOp); ok {
+			if fa, ok := ld.X.(*ssa.FieldAddr); ok && core.FieldName(fa) == "MaxTTL" {
+				return true
+			}
+		}
+		if fv, ok := y.(*ssa.Field); ok {
+			if st, ok := fv.X.Type().Underlying().(*types.Struct); ok && st.Field(fv.Field).Name() == "MaxTTL" {
+				return true
+			}
+		}
+		return false
+	}
+	conds, truth := domFacts(at.Block())
+	for i, cd := range conds {
+		bo, ok := cd.(*ssa.BinOp)
+		if !ok {
+			continue
+		}
+		// through short-circuit "a || b": the false edge of either disjunct's test dominates
+		if stripWiden(bo.X) == v && isMaxTTL(bo.Y) {
+			if (bo.Op == token.GTR && !truth[i]) || (bo.Op == token.LEQ && truth[i]) {
+				return true, "the index is bounded by MaxTTL on a dominating branch of " + core.FuncName(at.Parent())
+			}
+		}
+		if stripWiden(bo.Y) == v && isMaxTTL(bo.X) {
+			if (bo.Op == token.LSS && !truth[i]) || (bo.Op == token.GEQ && truth[i]) {
+				return true, "the index is bounded by MaxTTL on a dominating branch of " + core.FuncName(at.Parent())
+			}
+		}
+	}
+	if pa, ok := v.(*ssa.Parameter); ok {
+		g := pa.Parent()
+		idx := -1
+		for k, q := range g.Params {
+			if q == pa {
+				idx = k
+			}
+		}
+		n := c.P.CallGraph().Nodes[g]
+		if n == nil || idx < 0 {
+			return false, ""
+		}
+		sites := 0
+		for _, in := range n.In {
+			if in.Caller.Func == nil || !core.InModule(in.Caller.Func) || strings.HasSuffix(in.Caller.Func.Name(), "$bound") {
+				continue
+			}
+			cc := in.Site.Common()
+			off := len(g.Params) - len(cc.Args)
+			if cc.IsInvoke() || off < 0 || idx-off < 0 || idx-off >= len(cc.Args) {
+				return false, ""
+			}
+			sites++
+			if ok, _ := boundedByMaxTTL(c, in.Site, cc.Args[idx-off], depth+1); !ok {
+				return false, ""
+			}
+		}
+		if sites > 0 {
+			return true, "every caller bounds the index by MaxTTL before the call"
+		}
+	}
+	return false, ""
+}
+
+// checkFixedWidthReads is R09.3(e): binary.BigEndian/LittleEndian.UintNN(b) panics when len(b) < NN/8, and after inlining the
+// compiler reports that check inside encoding/binary where it cannot be attributed to a call site. Every such read reachable
+// from the inbound roots must therefore be given a slice whose length is established: a slice expression of constant width
+// >= the read's width (s[a:a+k], s[:k]), or a slice s / s[lo:] with a dominating condition lo + width <= len(s).
+func checkFixedWidthReads(c *Ctx, roots []*ssa.Function) {
+	R := c.R
+	n := 0
+	for _, f := range ModReach(c.P, roots...) {
+		fn := core.FuncName(f)
+		for _, b := range f.Blocks {
+			for _, in := range b.Instrs {
+				call, ok := in.(*ssa.Call)
+				if !ok {
+					continue
+				}
+				name := core.CalleeName(call.Common())
+				w := int64(0)
+				switch {
+				case strings.HasSuffix(name, "ndian).Uint16"):
+					w = 2
+				case strings.HasSuffix(name, "ndian).Uint32"):
+					w = 4
+				case strings.HasSuffix(name, "ndian).Uint64"):
+					w = 8
+				}
+				if w == 0 || !strings.Contains(name, "binary.") {
+					continue
+				}
+				n++
+				arg := call.Common().Args[len(call.Common().Args)-1]
+				ok2, why := lengthAtLeast(arg, w, b)
+				R.Check(ok2, "R09.3", fmt.Sprintf("%s#fixed-width-read[%d]", fn, n), call.Pos(), fn, "fixed-width read of a slice of established length ("+why+")", fmt.Sprintf("%s reads %d bytes from a slice whose length is not established (no constant-width slice expression, no dominating length test): a short packet panics inside encoding/binary", name, w))
+			}
+		}
+	}
+	R.Floor("R09.3:fixed-width-reads", n, 3)
+}
+
+func lengthAtLeast(v ssa.Value, w int64, at *ssa.BasicBlock) (bool, string) {
+	conds, truth := domFacts(at)
+	fact := func(x ssa.Value, S ssa.Value, need int64) bool {
+		xb, xc := linearOf(stripWiden(x))
+		for i, cd := range conds {
+			if k, ok := leLenFact(cd, truth[i], xb, S); ok && xc+need <= k {
+				return true
+			}
+		}
+		return false
+	}
+	if sl, ok := v.(*ssa.Slice); ok {
+		constOf := func(x ssa.Value) (int64, bool) {
+			if x == nil {
+				return 0, true
+			}
+			if cst, ok := x.(*ssa.Const); ok && cst.Value != nil {
+				return cst.Int64(), true
+			}
+			return 0, false
+		}
+		if sl.High != nil {
+			lo, lok := constOf(sl.Low)
+			hi, hok := constOf(sl.High)
+			if lok && hok && hi-lo >= w {
+				return true, "constant-width slice expression"
+			}
+			lb, lc := linearOf(stripWiden(sl.High))
+			if sl.Low != nil {
+				ob, oc := linearOf(stripWiden(sl.Low))
+				if stripWiden(lb) == stripWiden(ob) && lc-oc >= w {
+					return true, "slice expression of constant width"
+				}
+			}
+			return false, ""
+		}
+		// s[lo:]
+		if sl.Low == nil {
+			return lengthAtLeast(sl.X, w, at)
+		}
+		if fact(sl.Low, sl.X, w) {
+			return true, "open-ended slice behind a dominating low+width <= len test"
+		}
+		return false, ""
+	}
+	// the whole slice behind a length test: width <= len(s)  (e.g. if len(s) < 4 { return })
+	for i, cd := range conds {
+		bo, ok := cd.(*ssa.BinOp)
+		if !ok {
+			continue
+		}
+		call, ok := stripWiden(bo.X).(*ssa.Call)
+		if !ok {
+			continue
+		}
+		if bi, ok := call.Common().Value.(*ssa.Builtin); !ok || bi.Name() != "len" || !sameSlice(call.Common().Args[0], v) {
+			continue
+		}
+		cst, ok := bo.Y.(*ssa.Const)
+		if !ok || cst.Value == nil {
+			continue
+		}
+		k := cst.Int64()
+		if (bo.Op == token.LSS && !truth[i] && k >= w) || (bo.Op == token.GEQ && truth[i] && k >= w) || (bo.Op == token.GTR && truth[i] && k+1 >= w) || (bo.Op == token.LEQ && !truth[i] && k+1 >= w) {
+			return true, "behind a dominating len test"
+		}
+	}
+	return false, ""
 }
